@@ -31,7 +31,8 @@ ACT = {
 PROBES = {
     "C16": [("MCStaker_quickB.cfg", "NeverCooldownPaid"), ("MCStaker_quickB.cfg", "NeverDelegationWithdrawnAfterLock"),
             ("MCStaker_quick.cfg", "NeverRenewedWithDelegation")],
-    "C17": [("MCStaker_quick.cfg", "NeverEvicted"), ("MCStaker_quick.cfg", "NeverEmptied")],
+    "C17": [("MCStaker_quick.cfg", "NeverEvicted"), ("MCStaker_quick.cfg", "NeverEmptied"),
+            ("MCStaker_quickB.cfg", "NeverOfflineAtEarlyCheck"), ("MCStaker_quickB.cfg", "NeverEvicted")],
 }
 F4_SIGNATURE = "leader-group-emptied:exit-of-only-active-validator"
 WORKERS = 6
